@@ -419,6 +419,7 @@ def check_oracle(dirname, oracles):
         if proc_res.failed:
             output[pid] = proc_res.stats
             continue
+        saved = False
         for program, oracle in proc_res.stats['programs'].items():
             if oracle and program in failed:
                 # Here the program should be compiled successfully. However,
@@ -433,9 +434,11 @@ def check_oracle(dirname, oracles):
                 if cli_args.rerun:
                     _report_failed(pid, cli_args.transformations, compiler,
                                    oracle)
-                shutil.copytree(
-                    os.path.join(cli_args.test_directory, 'tmp', str(pid)),
-                    os.path.join(cli_args.test_directory, str(pid)))
+                if not saved:
+                    shutil.copytree(
+                        os.path.join(cli_args.test_directory, 'tmp', str(pid)),
+                        os.path.join(cli_args.test_directory, str(pid)))
+                    saved = True
                 if stop:
                     print(proc_res.stats['error'])
                     sys.exit(1)
@@ -452,9 +455,11 @@ def check_oracle(dirname, oracles):
                 if cli_args.rerun:
                     _report_failed(pid, cli_args.transformations, compiler,
                                    oracle)
-                shutil.copytree(
-                    os.path.join(cli_args.test_directory, 'tmp', str(pid)),
-                    os.path.join(cli_args.test_directory, str(pid)))
+                if not saved:
+                    shutil.copytree(
+                        os.path.join(cli_args.test_directory, 'tmp', str(pid)),
+                        os.path.join(cli_args.test_directory, str(pid)))
+                    saved = True
         shutil.rmtree(os.path.join(cli_args.test_directory, 'tmp',
                                    str(pid)))
     # Clear the directory of programs.
